@@ -37,6 +37,7 @@ REQUIRED = ("parameters_redeclared_with_another_range_mid_run", "suggest_calls",
             "cond_stored_equals_received", "relative_mode_values", "independent_mode_values")
 SHARDS = {"quick": 14, "thorough": 16}
 WATCHDOG_S = {"quick": 900, "thorough": 4 * 3600}
+BUDGET_S = {"quick": 600, "thorough": 2700}
 
 _CUR: dict = {"ctx": None, "log": None, "scenario": None}
 
